@@ -1029,6 +1029,11 @@ non-trivial: C11p every case; C11d valid tiles; C11u cases where the expected ou
 			match t[0] {
 				"C11p" if t.len() == 3 => emit_prim(&mut out, t[1], t[2]),
 				"C11d" if t.len() == 2 => emit_decode(&mut out, &unhex(t[1]), None),
+				"C11csv" if t.len() == 2 => {
+					let a = crate::c11csv::real_table(&unhex(t[1]));
+					out.case(line, &a, true);
+					out.oracle(a != "panic", "C11 csv: the lexer panics", json!({"kind": "csv_panic"}), json!({"case": line}));
+				}
 				"C11u" => {
 					if let Some(c) = parse_case_line(line) {
 						emit_update(&mut out, &mut runner, &c, TileCompression::Uncompressed, true)
@@ -1044,6 +1049,8 @@ non-trivial: C11p every case; C11d valid tiles; C11u cases where the expected ou
 	for (op, arg) in prim_cases(&mut rng, args.n(400, 20000)) {
 		emit_prim(&mut out, &op, &arg);
 	}
+	// the CSV lexer
+	crate::c11csv::run_csv(&mut out, args, &mut rng);
 	// seed-independent boundary tiles
 	let (btiles, bupd) = boundary_cases();
 	for b in &btiles {
